@@ -5,6 +5,7 @@ import Hgxv.Proofs.C15Witness
 import Hgxv.Proofs.C15Exact
 import Hgxv.Proofs.C15Stop
 import Hgxv.Proofs.C15Session
+import Hgxv.Proofs.C15LogBinom
 /-! # C15 — Hy-MMSBM quantities equal their definitions; EM ascends, fixed inputs stay
 
 Theorems about the executable model `Hgxv/Model/C15.lean` (exact rationals; `Real.log` for the
@@ -66,6 +67,54 @@ theorem C15_C_term (N d : ℕ) (hd : 2 ≤ d) (hN : d ≤ N) :
   have h1 := (choose_pos' N d hd hN).ne'
   obtain ⟨h2, h3⟩ := d_pos d hd
   unfold Cterm; field_simp
+
+/-! ### the normalisation in log space (`log_kappa`, `log_binomial`) -/
+
+/-- `log_binomial(n, k)` holds the coefficient as two products, `np.arange(n−k+1, n+1)` over `np.arange(1, k+1)`:
+the numerator is the denominator times `C(n, k)` — exact naturals, whatever their size.  Hypothesis `k ≤ n`:
+`log_kappa` calls it with `n = N − 2`, `k = d − 2`, `d ≤ N`. -/
+theorem C15_log_binomial_products (n k : ℕ) (hk : k ≤ n) :
+    binomNum n k = binomDen k * Nat.choose n k ∧ choose n k = Nat.choose n k :=
+  ⟨binomNum_eq n k hk, choose_eq n k⟩
+
+/-- `log_binomial(n, k) = np.log(np.arange(n−k+1, n+1)).sum() − np.log(np.arange(1, k+1)).sum()` is `log C(n, k)`
+(over `ℝ`; `k ≤ n`).  No size restriction: the statement is about the sums of logarithms, the coefficient itself is
+never formed. -/
+theorem C15_log_binomial (n k : ℕ) (hk : k ≤ n) :
+    (∑ i ∈ range k, Real.log ((n - k + 1 + i : ℕ) : ℝ)) - ∑ i ∈ range k, Real.log ((1 + i : ℕ) : ℝ)
+      = Real.log (Nat.choose n k : ℝ) := by
+  rw [← log_prodFrom (n - k + 1) k (by omega), ← log_prodFrom 1 k (le_refl 1)]
+  have hnum : (prodFrom (n - k + 1) k : ℝ) = (prodFrom 1 k : ℝ) * (Nat.choose n k : ℝ) := by
+    have := binomNum_eq n k hk
+    unfold binomNum binomDen at this
+    exact_mod_cast this
+  have hden : ((prodFrom 1 k : ℕ) : ℝ) ≠ 0 := by
+    have := prodFrom_pos 1 k (le_refl 1)
+    exact_mod_cast this.ne'
+  have hch : ((Nat.choose n k : ℕ) : ℝ) ≠ 0 := by
+    have := Nat.choose_pos hk
+    exact_mod_cast this.ne'
+  rw [hnum, Real.log_mul hden hch]; ring
+
+/-- `log_kappa(d) = log_binomial(N−2, d−2) + log d + log(d−1) − log 2` is the logarithm of the normalisation
+`κ_d = C(N−2, d−2)·d(d−1)/2` of the model, for every `2 ≤ d ≤ N` (any magnitude of the coefficient); and the product form
+the driver evaluates (`kappaProd`) is `kappa`. -/
+theorem C15_log_kappa (N d : ℕ) (hd : 2 ≤ d) (hN : d ≤ N) :
+    ((∑ i ∈ range (d - 2), Real.log ((N - 2 - (d - 2) + 1 + i : ℕ) : ℝ)) - ∑ i ∈ range (d - 2), Real.log ((1 + i : ℕ) : ℝ))
+        + Real.log (d : ℝ) + Real.log ((d : ℝ) - 1) - Real.log 2
+      = Real.log ((kappa N d : ℚ) : ℝ) ∧ kappaProd N d = kappa N d := by
+  refine ⟨?_, kappaProd_eq N d hd hN⟩
+  rw [C15_log_binomial (N - 2) (d - 2) (by omega), kappa_eq]
+  have hch : ((Nat.choose (N - 2) (d - 2) : ℕ) : ℝ) ≠ 0 := by
+    have := Nat.choose_pos (show d - 2 ≤ N - 2 by omega)
+    exact_mod_cast this.ne'
+  have h2 : (2 : ℝ) ≤ (d : ℝ) := by exact_mod_cast hd
+  have hd0 : (d : ℝ) ≠ 0 := by linarith
+  have hd1 : (d : ℝ) - 1 ≠ 0 := by linarith
+  push_cast
+  rw [Real.log_div (by positivity) (by norm_num), Real.log_mul (by positivity) hd1, Real.log_mul hch hd0]
+
+example : kappaProd 7 4 = 60 ∧ kappa 7 4 = 60 ∧ binomNum 5 2 = 20 ∧ binomDen 2 = 2 := by decide +kernel
 
 /-- `dimension_sequence(expected=True)[d] = C(d)·bf_and_sum(u, w)` is the expected number of hyperedges of
 size `d`: the sum over all `d`-subsets `e` of `λ_e/κ_d`.  Hypotheses: `w` symmetric, `2 ≤ d ≤ N`. -/
